@@ -1,5 +1,5 @@
 """props — per-property check definitions for vcheck."""
-import os, sys, json, time, re, glob
+import os, sys, json, time, re, glob, concurrent.futures
 import vlib
 from vlib import *
 
@@ -17,15 +17,19 @@ def front(ctx, need_exec=True):
     for e in errs: broken.append("translator: " + e)
     vfile = "theories/Properties/%s.v" % ctx.pid
     theorems, discharged = [], 0
-    rc, out = coq_build()
-    if rc != 0: broken.append("model build failed: " + out[-400:])
+    # models first (the driver is extracted from them); a failing *theorem* must not stop the correspondence
+    model_targets = [f[len(V) + 1:] + "o" for f in glob.glob(os.path.join(V, "theories", "Model", "*.v")) +
+                     glob.glob(os.path.join(V, "theories", "Spec", "*.v")) + glob.glob(os.path.join(V, "theories", "Ref", "*.v")) +
+                     glob.glob(os.path.join(V, "theories", "Gen", "*.v"))]
+    rc, out = coq_build(model_targets)
+    if rc != 0: broken.append("MODEL-BUILD-FAILED: " + out[-400:])
     if os.path.exists(os.path.join(V, vfile)):
         rc, out = coq_build([vfile + "o"])
         theorems = theorem_names(vfile)
         if rc != 0:
             m = re.findall(r'File "([^"]+)", line (\d+).*?\n(Error:.*?)(?:\n\n|\Z)', out, re.S)
             where = "; ".join("%s:%s %s" % (a, b, c.replace("\n", " ")[:200]) for a, b, c in m[:3]) or out[-400:]
-            broken.append("theorem build failed: " + where)
+            broken.append("theorem no longer checks: " + where)
         else:
             names, badass = check_assumptions(ctx.pid)
             for n, t in badass.items(): broken.append("assumptions of %s: %s" % (n, t[:200]))
@@ -34,10 +38,10 @@ def front(ctx, need_exec=True):
     if need_exec:
         rc, out = build_harness("default")
         if rc != 0:
-            broken.append("harness build failed: " + out[-400:])
+            broken.append("HARNESS-BUILD-FAILED: " + out[-400:])
             ctx.note("harness build failed")
         rc, out = build_driver()
-        if rc != 0: broken.append("driver build failed: " + out[-400:])
+        if rc != 0: broken.append("MODEL-BUILD-FAILED (driver): " + out[-400:])
     return dict(theorems=theorems, discharged=discharged, broken=broken)
 
 def pv_case(line):
@@ -82,7 +86,7 @@ def run_exec(ctx):
     known = load_known()
     corpus = os.path.join(V, "corpus", "exec.txt")
     summary, mism, pv, errs = ({}, [], [], [])
-    if not any("build failed" in b for b in broken):
+    if not any("-BUILD-FAILED" in b for b in broken):
         summary, mism, pv, errs = run_exec_shards(ctx.seed, shards, npat, nhay, BUDGET, corpus if os.path.exists(corpus) else None)
         for e in errs: broken.append("pipeline: " + e)
     ctx.note("correspondence: %s mismatches=%d propviol(all kinds)=%d" % (summary, len(mism), len(pv)))
@@ -120,7 +124,7 @@ def run_exec(ctx):
     if broken and reported == 0:
         # property-directed search already ran on this run's stream (PROPVIOL evaluation is independent of the model);
         # extend it with a second, larger stream before giving up
-        if not any("build failed" in b for b in broken):
+        if not any("-BUILD-FAILED" in b for b in broken):
             s2, m2, pv2, e2 = run_exec_shards(ctx.seed + 7919, 16, npat * 3, nhay, BUDGET)
             mine2 = [pv_case(l) for l in pv2 if parse_kv(l).get("prop") in kinds]
             if mine2:
@@ -193,7 +197,7 @@ def run_api(ctx):
     broken = list(fr["broken"])
     known = load_known()
     summary, mism, pv = {}, [], []
-    if not any("build failed" in b for b in broken):
+    if not any("-BUILD-FAILED" in b for b in broken):
         summary, mism, pv, errs = run_stream_shards(stream, {"spec": "spec", "cps": "cps"}.get(stream, "api"), ctx.seed, shards, n, extra="4" if stream == "spec" else "")
         for e in errs: broken.append("pipeline: " + e)
     ctx.note("correspondence(api): %s mismatches=%d propviol(all kinds)=%d" % (summary, len(mism), len(pv)))
@@ -266,8 +270,125 @@ def replay_api(ctx, path):
         print("replay: the recorded input no longer violates %s" % ctx.pid); return 0
     return run_api(ctx)
 
+# ------------------------------------------------------------------ table-family properties (C10, C11)
+def props_queries():
+    """The lookup queries for the `props` stream: every name regress accepts (from the translator's JSON)
+    under every way of writing it, probes that must be rejected, and mutated spellings."""
+    P = json.load(open(os.path.join(GEN, "proptables.json")))
+    q = []
+    for n, _ in P["maps"]["binary"]: q += [("-", n, "0"), ("-", n, "1"), ("gc", n, "0"), ("sc", n, "0")]
+    for n, _ in P["maps"]["gc"]: q += [("-", n, "0"), ("gc", n, "0"), ("General_Category", n, "1"), ("sc", n, "0"), ("scx", n, "0")]
+    for n, _ in P["maps"]["sc"]: q += [("sc", n, "0"), ("Script", n, "1"), ("scx", n, "0"), ("Script_Extensions", n, "0"), ("-", n, "0"), ("gc", n, "0")]
+    for n, _ in P["strings"]: q += [("-", n, "1"), ("-", n, "0"), ("gc", n, "1")]
+    probes = ["Hrkt", "Katakana_Or_Hiragana", "Block=Basic_Latin", "InBasicLatin", "alpha", "ALPHABETIC", "lu", "Lu ", " Lu", "", "L&", "Any ", "Hyphen", "Other_Alphabetic",
+              "Grapheme_Link", "Full_Composition_Exclusion", "IsAlphabetic", "latin", "Latin ", "Zzzz", "Unknown", "Zyyy", "Qaai", "Qaac", "Katakana", "Age", "Hex", "ASCII_Hex", "RGI_Emoji ", "rgi_emoji"]
+    names = ["-", "gc", "sc", "scx", "General_Category", "Script", "Script_Extensions", "Block", "blk", "Gc", "script", "", "Age", "scx "]
+    for p in probes:
+        for nm in names: q.append((nm if nm else "-", p, "1"))
+    for n, _ in (P["maps"]["binary"][:20] + P["maps"]["gc"][:20] + P["maps"]["sc"][:40]):
+        for m in (n.lower(), n.upper(), n[:-1], n + "x", n.replace("_", "")):
+            if m and m != n: q += [("-", m, "1"), ("gc", m, "0"), ("sc", m, "0")]
+    return q
+
+def run_tables(ctx):
+    fr = front(ctx)
+    broken = list(fr["broken"])
+    known = load_known()
+    summary, mism, pv = {}, [], []
+    d = os.path.join(BUILD, "tmp"); os.makedirs(d, exist_ok=True)
+    if not any("-BUILD-FAILED" in b for b in broken):
+        if ctx.pid == "C11":
+            qf = os.path.join(d, "propqueries_%d.txt" % os.getpid())
+            q = props_queries()
+            open(qf, "w").write("".join("%s\t%s\t%s\n" % t for t in q))
+            rc, out = sh("set -o pipefail; %s props %s | %s props" % (harness_bin(), qf, os.path.join(BUILD, "extract", "driver")), 600)
+            os.remove(qf)
+            if rc != 0: broken.append("pipeline: rc=%d %s" % (rc, out[-300:]))
+            for line in out.split("\n"):
+                if line.startswith("SUMMARY"):
+                    for k, v in parse_kv(line).items(): summary[k] = summary.get(k, 0) + int(v)
+                elif line.startswith("MISMATCH"): mism.append(line)
+                elif line.startswith("PROPVIOL"): pv.append(line)
+        else:
+            # C10: fold / unfold sweep over the whole code space, 16 ranges in parallel
+            step = 0x110000 // 16
+            cmds = ["set -o pipefail; %s fold %d %d | %s fold" % (harness_bin(), k * step, (k + 1) * step - 1 if k < 15 else 0x10FFFF, os.path.join(BUILD, "extract", "driver")) for k in range(16)]
+            with concurrent.futures.ThreadPoolExecutor(max_workers=NCPU) as ex:
+                for rc, out in ex.map(lambda c: sh(c, 900), cmds):
+                    if rc != 0: broken.append("pipeline: rc=%d %s" % (rc, out[-300:]))
+                    for line in out.split("\n"):
+                        if line.startswith("SUMMARY"):
+                            for k, v in parse_kv(line).items(): summary[k] = summary.get(k, 0) + int(v)
+                        elif line.startswith("MISMATCH"): mism.append(line)
+                        elif line.startswith("PROPVIOL"): pv.append(line)
+    ctx.note("correspondence(tables): %s mismatches=%d propviol=%d" % (summary, len(mism), len(pv)))
+    reported = 0
+    for l in pv[:3]:
+        dd = parse_kv(l)
+        path = write_replay(ctx, "input", dict(kind="failing-input", stream="props", query=dd.get("case"), flags=dd.get("flags"), detail=dd.get("detail")))
+        report_violation(ctx, path); reported += 1
+    if mism: broken.append("correspondence (%s): %d disagreements, first: %s" % ("S1 props lookup" if ctx.pid == "C11" else "S7 fold/unfold sweep", len(mism), mism[0][:300]))
+    if ctx.pid == "C10":
+        # the one known finding of C10 is *proved* to be exactly this set (theorem c10_uppercase_eq_ref_except_known);
+        # if the tables change so that the set changes, that theorem breaks and the check reports it
+        for k in known:
+            if k["property"] == "C10":
+                msg = "KNOWN-FINDING: property=C10 %s" % k["what"]
+                ctx.known.append(msg); print(msg, flush=True)
+    if broken and reported == 0:
+        # property-directed search for a concrete failing code point / name: evaluate the implementation against the reference directly
+        found = None
+        if ctx.pid == "C10" and not any("-BUILD-FAILED" in b for b in broken):
+            found = search_fold_violation()
+        if found:
+            path = write_replay(ctx, "input", dict(kind="failing-input", stream="fold", detail=found, broken=broken))
+            report_violation(ctx, path)
+        else:
+            path = write_replay(ctx, "tie", dict(kind="broken-obligation", broken=broken,
+                                                 note="a regenerated table obligation or the correspondence no longer checks; no violating code point / name was found by the search"))
+            report_violation(ctx, path, no_input=True)
+    nth = len(fr["theorems"])
+    cov = dict(obligations=max(nth, 1), discharged=fr["discharged"] if nth else 0,
+               checker_cmd="tools/gen_*.py (regenerate tables from /repo) && make theories/Properties/%s.vo && coqc Print Assumptions; rvharness %s | driver" % (ctx.pid, "props" if ctx.pid == "C11" else "fold"),
+               trusted_base=TRUSTED_BASE + ["reference Unicode 17 data from V8/ICU 78 (ref/gen_ref.js, committed under theories/Ref; regenerated and diffed by the thorough tier)"],
+               evaluations=summary.get("runs", 0), distinct_nontrivial=summary.get("nontrivial", 0), exhaustive=True,
+               rule="C10: every code point 0..0x10FFFF (fold, uppercase, both unfolds, word-fold flag) implementation vs model; non-trivial = a code point that is not an identity everywhere. C11: every accepted (name, value) spelling plus rejected probes and mutated spellings, implementation vs model vs reference; non-trivial = accepted lookups",
+               samples=[dict(theorems=fr["theorems"][:10])], theorems=fr["theorems"], disagreements_checked=len(mism), programs=max(summary.get("cases", 0), 1))
+    level = "proof" if nth and fr["discharged"] == nth and not broken else "translation_validation"
+    write_evidence(ctx, level, cov, ["reference data comes from one independent implementation (V8/ICU)"])
+    return 1 if ctx.violations else 0
+
+def search_fold_violation():
+    """Compare the implementation's fold / uppercase with the committed reference JSON over the whole code space."""
+    F = json.load(open(os.path.join(V, "ref", "ref_fold.json")))
+    legacy = dict((a, b) for a, b in F["legacy"])
+    cls = {}
+    for cl in F["classes"]:
+        for c in cl: cls[c] = cl
+    known = set([305, 383] + list(range(8064, 8072)) + list(range(8080, 8088)) + list(range(8096, 8104)) + [8115, 8131, 8179])
+    rc, out = sh("%s fold 0 1114111" % harness_bin(), 600)
+    fu, fl = {}, {}
+    for line in out.split("\n"):
+        t = line.split()
+        if t and t[0] == "F": fu[int(t[1])] = int(t[2]); fl[int(t[1])] = int(t[3])
+    for c in range(0x110000):
+        u = fl.get(c, c)
+        if u != legacy.get(c, c) and c not in known:
+            return "legacy-canonicalize(U+%04X)=U+%04X,ECMAScript=U+%04X" % (c, u, legacy.get(c, c))
+    for c, cl in cls.items():
+        for d in cl:
+            if fu.get(c, c) != fu.get(d, d): return "fold(U+%04X)<>fold(U+%04X)-but-same-simple-case-folding-class" % (c, d)
+    for c in range(0x110000):
+        if fu.get(c, c) != c and (c not in cls or fu[c] not in cls[c]):
+            return "fold(U+%04X)=U+%04X-outside-its-simple-case-folding-class" % (c, fu[c])
+    return None
+
+def replay_tables(ctx, path):
+    return run_tables(ctx)
+
 PROPS = {}
 for _p in EXEC_PROPS: PROPS[_p] = (run_exec, replay_exec)
+for _p in ("C10", "C11"): PROPS[_p] = (run_tables, replay_tables)
 for _p in API_PROPS: PROPS[_p] = (run_api, replay_api)
 
 def run(ctx):
